@@ -76,7 +76,7 @@ package mvp6_2
 // path (loops 10, 11 of Run), which otherwise never ends.
 //@ spec func connected(b *comp.BufferedBus[risc.ExecutionContext], c int) bool = len(b.buffer) > 0 ==> len(b.queue) == b.queueLength || b.buffer[0].availableFromCycle > c
 //@ func (*CPU).Run
-//@   assume-before (*memoryManagementUnit).flush: wfMMU(m.memoryManagementUnit) && m.memoryManagementUnit.l3.lineLength == 64 && allocated(m.memoryManagementUnit.ctx.Memory) && (forall j :: 0 <= j && j < len(m.memoryManagementUnit.l3.lines) ==> !sameArray(m.memoryManagementUnit.l3.lines[j].Data, m.memoryManagementUnit.ctx.Memory) && int32(m.memoryManagementUnit.l3.lines[j].Boundary[0]) <= 1073741824)
+//@   assume-before (*memoryManagementUnit).flush: wfMMU(m.memoryManagementUnit) && m.memoryManagementUnit.l3.lineLength == 64 && allocated(m.memoryManagementUnit.ctx.Memory) && (forall j :: 0 <= j && j < len(m.memoryManagementUnit.l3.lines) ==> !sameArray(m.memoryManagementUnit.l3.lines[j].Data, m.memoryManagementUnit.ctx.Memory) && int32(m.memoryManagementUnit.l3.lines[j].Boundary[0]) <= 1073741824) && comp.disjointLines(m.memoryManagementUnit.l3)
 //@   requires wired(m)
 //@   assume-before (*Context).Commit: m.ctx.Registers != nil && m.ctx.Transaction != nil
 //@   nooverflow cycle, m.counterFlush
@@ -166,15 +166,15 @@ package mvp6_2
 
 // final flush: every byte of every resident line is in memory afterwards and
 // bytes not covered by a resident line are untouched. With overlapping lines
-// the last line written wins (known findings F14/F16: region "lines overlap").
+// the last line written wins: the lines must not overlap (precondition; they
+// are aligned on their size since the fill path aligns its fetches: F14/F16, fixed).
 //@ spec func memAt(u *memoryManagementUnit, x int) int8 = at(u.ctx.Memory, lo(u.ctx.Memory) + x)
 //@ func (*memoryManagementUnit).flush
-//@   requires wfMMU(u) && u.l3.lineLength == 64 && allocated(u.ctx.Memory) && (forall j :: 0 <= j && j < len(u.l3.lines) ==> !sameArray(u.l3.lines[j].Data, u.ctx.Memory) && int32(u.l3.lines[j].Boundary[0]) <= 1073741824)
+//@   requires wfMMU(u) && u.l3.lineLength == 64 && allocated(u.ctx.Memory) && (forall j :: 0 <= j && j < len(u.l3.lines) ==> !sameArray(u.l3.lines[j].Data, u.ctx.Memory) && int32(u.l3.lines[j].Boundary[0]) <= 1073741824) && comp.disjointLines(u.l3)
 //@   nooverflow additionalCycles
 //@   ensures result == latency.MemoryAccess * len(u.l3.lines)
 //@   ensures forall j, k :: 0 <= j && j < len(u.l3.lines) && 0 <= k && k < 64 && int(u.l3.lines[j].Boundary[0]) + k < len(u.ctx.Memory) ==> memAt(u, int(u.l3.lines[j].Boundary[0]) + k) == u.l3.lines[j].Data[k]
 //@   ensures forall x :: 0 <= x && x < len(u.ctx.Memory) && x <= 2147483647 && (forall j :: 0 <= j && j < len(u.l3.lines) ==> !comp.covers(u.l3.lines[j], int32(x))) ==> memAt(u, x) == old(memAt(u, x))
-//@   finding F14-F16-overlapping-lines: !comp.disjointLines(u.l3)
 //@   assigns u.ctx.Memory[*]
 //@   loop 0: invariant u.ctx == old(u.ctx) && u.l3 == old(u.l3) && u.ctx.Memory == old(u.ctx.Memory) && additionalCycles == latency.MemoryAccess * _idx0 && _range0 == u.l3.lines
 //@   loop 0: invariant forall j, a :: 0 <= j && j < len(u.l3.lines) && lo(u.l3.lines[j].Data) <= a && a < hi(u.l3.lines[j].Data) ==> at(u.l3.lines[j].Data, a) == old(at(u.l3.lines[j].Data, a))
@@ -350,10 +350,11 @@ package mvp6_2
 // ---- BEGIN generated by gen_l3.py: L3 fill, eviction write-back and the pending-fetch list (C05, C07)
 // getFromL3: a hit returns one byte per address; otherwise either a fetch of
 // the first missing address is already marked pending (nothing changes) or a
-// mark [a, a+lineSize+1) is appended for it. pushLineToL3: the line becomes the
+// mark [b, b+lineSize) is appended for its line (b = a rounded down to the line
+// size: lines are aligned, F14/F16 fixed). pushLineToL3: the line becomes the
 // most recently used one, the least recently used line is displaced when the
-// cache is full and must then be in memory (the real code writes the NEW line
-// back instead: known finding F13), and the first pending mark that starts at
+// cache is full and must then be in memory (the code used to write the NEW line
+// back instead: F13, fixed), and the first pending mark that starts at
 // addr is removed, the others keep their order (a mark that is never removed
 // makes every later load of its range wait for ever: C07).
 //@ spec func markedAt(u *memoryManagementUnit, a int32, k int) bool = 0 <= k && k < len(u.pendings) && u.pendings[k][0] == a && (forall j :: 0 <= j && j < k ==> u.pendings[j][0] != a)
@@ -363,22 +364,21 @@ package mvp6_2
 //@   ensures result2 ==> len(result) == len(addrs) && !result1
 //@   ensures !result2 ==> result == nil
 //@   ensures result1 || result2 ==> u.pendings == old(u.pendings)
-//@   ensures !result1 && !result2 ==> len(u.pendings) == len(old(u.pendings)) + 1 && (forall j :: 0 <= j && j < len(old(u.pendings)) ==> u.pendings[j] == old(u.pendings[j])) && u.pendings[len(u.pendings)-1][1] == u.pendings[len(u.pendings)-1][0] + 65
-//@   ensures !result1 && !result2 ==> (exists k :: 0 <= k && k < len(addrs) && u.pendings[len(u.pendings)-1][0] == addrs[k])
+//@   ensures !result1 && !result2 ==> len(u.pendings) == len(old(u.pendings)) + 1 && (forall j :: 0 <= j && j < len(old(u.pendings)) ==> u.pendings[j] == old(u.pendings[j])) && u.pendings[len(u.pendings)-1][1] == u.pendings[len(u.pendings)-1][0] + 64 && u.pendings[len(u.pendings)-1][0] % 64 == 0
+//@   ensures !result1 && !result2 ==> (exists k :: 0 <= k && k < len(addrs) && u.pendings[len(u.pendings)-1][0] == addrs[k] - addrs[k] % 64)
 //@   ensures len(u.l3.lines) == len(old(u.l3.lines)) && wfMMU(u)
 //@   assigns u.l3.lines, u.pendings, all [][2]int32
 //@   loop 0: invariant wfMMU(u) && u.l3 == old(u.l3) && u.ctx == old(u.ctx) && u.pendings == old(u.pendings) && len(u.l3.lines) == len(old(u.l3.lines)) && len(memory) == _idx0 && cap(memory) >= len(addrs) && fresh(memory) && !sameArray(memory, addrs)
 //@   loop 0: invariant forall j :: 0 <= j && j < len(u.pendings) ==> u.pendings[j] == old(u.pendings[j])
 
 //@ func (*memoryManagementUnit).pushLineToL3
-//@   requires wfMMU(u) && len(u.l3.lines) <= u.l3.numberOfLines && 0 <= int32(addr) && int32(addr) <= 1073741824 && len(line) <= 1048576 && !sameArray(line, u.ctx.Memory) && allocated(u.ctx.Memory)
+//@   requires wfMMU(u) && len(u.l3.lines) <= u.l3.numberOfLines && 0 <= int32(addr) && int32(addr) <= 1073741824 && len(line) <= 1048576 && !sameArray(line, u.ctx.Memory) && allocated(u.ctx.Memory) && (forall j :: 0 <= j && j < len(u.l3.lines) ==> !sameArray(u.l3.lines[j].Data, u.ctx.Memory) && int32(u.l3.lines[j].Boundary[0]) <= 1073741824)
 //@   ensures u.l3.numberOfLines > 0 ==> u.l3.lines[0].Boundary[0] == addr && u.l3.lines[0].Data == line
 //@   ensures len(u.l3.lines) == min(len(old(u.l3.lines)) + 1, u.l3.numberOfLines)
 //@   ensures forall j :: 0 < j && j < len(u.l3.lines) ==> u.l3.lines[j] == old(u.l3.lines[j-1])
 //@   ensures forall k :: old(len(u.l3.lines)) == u.l3.numberOfLines && u.l3.numberOfLines > 0 && 0 <= k && k < u.l3.lineLength && int(old(u.l3.lines[len(u.l3.lines)-1].Boundary[0])) + k < len(u.ctx.Memory) ==> u.ctx.Memory[int(old(u.l3.lines[len(u.l3.lines)-1].Boundary[0])) + k] == old(u.l3.lines[len(u.l3.lines)-1].Data[k])
 //@   ensures (forall j :: 0 <= j && j < len(old(u.pendings)) ==> old(u.pendings[j][0]) != int32(addr)) ==> len(u.pendings) == len(old(u.pendings)) && (forall j :: 0 <= j && j < len(u.pendings) ==> u.pendings[j] == old(u.pendings[j]))
 //@   ensures forall k :: old(markedAt(u, int32(addr), k)) ==> len(u.pendings) == len(old(u.pendings)) - 1 && (forall j :: 0 <= j && j < k ==> u.pendings[j] == old(u.pendings[j])) && (forall j :: k <= j && j < len(u.pendings) ==> u.pendings[j] == old(u.pendings[j+1]))
-//@   finding F13-evicted-line-not-written-back: len(u.l3.lines) == u.l3.numberOfLines && u.l3.numberOfLines > 0
 //@   assigns u.l3.lines, u.ctx.Memory[*], u.pendings, all [][2]int32
 //@   loop 0: invariant u.pendings == old(u.pendings) && (forall j :: 0 <= j && j < _idx0 ==> u.pendings[j][0] != int32(addr)) && _range0 == u.pendings
 
